@@ -36,8 +36,10 @@ def band_job(job):
         try:
             ef = np.asarray(RadioEFieldParams((float(lo), float(hi)))(zen, view, h))
             nfield = int(ef.shape[1]) if ef.ndim == 2 else -1
-            ra.calculate_snr(ef, (float(lo), float(hi)), 525.0, 10, 1.8)
+            snr = np.asarray(ra.calculate_snr(ef, (float(lo), float(hi)), 525.0, 10, 1.8), dtype=float)
+            snr_ok = bool(snr.shape == (len(zen),) and np.all(np.isfinite(snr)))
         except Exception as ex:
+            snr_ok = False
             err = repr(ex)[:200]
             nfield = locals().get("nfield", -1)
         finally:
@@ -49,7 +51,7 @@ def band_job(job):
             a = np.asarray(a, dtype=float)
             return [int(x) if float(x).is_integer() else -1 for x in a]
         ev.append({"kind": "band", "lo": int(lo), "hi": int(hi), "nfield": nfield, "ant": ints(seen["ant"]), "noise": ints(seen["noise"]),
-                   "_m": {"lo": lo, "hi": hi, "nfield": nfield, "error": err}})
+                   "snrOk": snr_ok, "_m": {"lo": lo, "hi": hi, "nfield": nfield, "error": err, "snr_ok": snr_ok}})
     return ev
 
 
